@@ -463,7 +463,7 @@ def gen_value(rng, key, tagn, D=2, noisy=False):
 
 def gen_problem(rng, D):
     return dict(D=D, x0=rng.choice(["2d", "2d", "1d", "list", "none"]), bounds=rng.choice(["2d", "2d", "1d", "list"]),
-                box=rng.choice(["plain", "plain", "edge", "tight", "unbounded", "nopb"]))
+                box=rng.choice(["plain", "plain", "edge", "tight", "unbounded", "nopb", "log", "log"]))
 
 
 def build_problem(p):
@@ -485,6 +485,10 @@ def build_problem(p):
     elif p["box"] == "unbounded":
         lb[:] = -np.inf
         ub[:] = np.inf
+    elif p["box"] == "log":
+        # positive bounds spanning more than a decade: the variable transform takes logarithms of (its copies of) the bounds
+        lb[:], plb[:], pub[:], ub[:] = 2.0, 5.0, 500.0, 5000.0
+        x0[:] = 40.0
     shape = {"2d": lambda a: a.reshape(1, -1).copy(), "1d": lambda a: a.copy(), "list": lambda a: a.tolist()}
     out = dict(lb=shape[p["bounds"]](lb), ub=shape[p["bounds"]](ub), plb=shape[p["bounds"]](plb), pub=shape[p["bounds"]](pub))
     out["x0"] = None if p["x0"] == "none" else shape[p["x0"]](x0)
@@ -1135,7 +1139,7 @@ def t2_gen_multi(rng, idx, runs):
     share = n == 3 and not runs and rng.random() < 0.3         # instance 2 re-uses instance 0's dict OBJECT
     for i in order:
         ops.append(dict(op="construct", i=i, D=Ds[i], u=(0 if (share and i == 2) else i),
-                        prob=gen_problem(rng, Ds[i]) if not runs else dict(gen_problem(rng, Ds[i]), box=rng.choice(["plain", "edge", "tight"]))))
+                        prob=gen_problem(rng, Ds[i]) if not runs else dict(gen_problem(rng, Ds[i]), box=rng.choice(["plain", "edge", "tight", "log"]))))
     if share:
         callers[0] = [[k, v] for k, v in callers[0] if v[0] != "default"]
     if runs:
